@@ -13,8 +13,20 @@ VERIF = os.path.dirname(os.path.dirname(os.path.abspath(__file__)))
 
 
 def main():
-    want = sys.argv[1:]
+    args = sys.argv[1:]
+    # --copy <dir>: patch a scratch copy of the committed tree instead of /repo (KV_REPO), so that several runs can go in
+    # parallel, each from its own snapshot of /verif; --shard i/n: take every n-th seed
+    copy, shard = None, None
+    if '--copy' in args:
+        copy = args[args.index('--copy') + 1]
+        del args[args.index('--copy'):args.index('--copy') + 2]
+    if '--shard' in args:
+        i, n = args[args.index('--shard') + 1].split('/')
+        shard = (int(i), int(n))
+        del args[args.index('--shard'):args.index('--shard') + 2]
+    want = args
     rows = []
+    count = -1
     for sid in sorted(os.listdir(os.path.join(VERIF, 'seeded'))):
         d = os.path.join(VERIF, 'seeded', sid)
         if not os.path.isfile(os.path.join(d, 'patch.diff')):
@@ -25,19 +37,29 @@ def main():
             continue
         prop = sid.split('-')[0]
         meta = json.load(open(os.path.join(d, 'meta.json')))
-        st = subprocess.run(['git', '-C', '/repo', 'status', '--porcelain'], stdout=subprocess.PIPE, text=True).stdout.strip()
-        if st:
-            print('refusing: /repo is not clean', file=sys.stderr)
-            return 2
-        r = subprocess.run(['git', '-C', '/repo', 'apply', os.path.join(d, 'patch.diff')])
+        count += 1
+        if shard and count % shard[1] != shard[0]:
+            continue
+        env = dict(os.environ, KV_EVIDENCE_DIR='/tmp/seed_ev%s' % (shard[0] if shard else ''))
+        if copy:
+            subprocess.run('rm -rf %s && mkdir -p %s && git -C /repo archive HEAD | tar -x -C %s' % (copy, copy, copy), shell=True, check=True)
+            r = subprocess.run(['patch', '-p1', '-s', '-d', copy, '-i', os.path.join(d, 'patch.diff')])
+            env['KV_REPO'] = copy
+        else:
+            st = subprocess.run(['git', '-C', '/repo', 'status', '--porcelain'], stdout=subprocess.PIPE, text=True).stdout.strip()
+            if st:
+                print('refusing: /repo is not clean', file=sys.stderr)
+                return 2
+            r = subprocess.run(['git', '-C', '/repo', 'apply', os.path.join(d, 'patch.diff')])
         if r.returncode:
             res = {'seed': sid, 'property': prop, 'rc': None, 'outcome': 'patch does not apply', 'obligations': []}
         else:
             try:
-                p = subprocess.run([os.path.join(VERIF, 'check'), prop, '--no-probe'], env=dict(os.environ, KV_EVIDENCE_DIR='/tmp/seed_ev'),
+                p = subprocess.run([os.path.join(VERIF, 'check'), prop, '--no-probe'], env=env,
                                    stdout=subprocess.PIPE, stderr=subprocess.STDOUT, text=True)
             finally:
-                subprocess.run(['git', '-C', '/repo', 'checkout', '--', '.'])
+                if not copy:
+                    subprocess.run(['git', '-C', '/repo', 'checkout', '--', '.'])
             out = p.stdout
             obl = sorted(set((a, b + ' (' + c + ')') for a, b, c in re.findall(r"failed obligation: (\[.*?\]|implicit) in (.*?) \((.*?)\)\s*$", out, re.M)))
             concrete = 'no-failing-input-found' not in out and 'VIOLATION' in out
